@@ -90,6 +90,16 @@ def analyze(ctx, want):
             gm = p.calls(r"(MultiPatternNfa|Nfa)::get_match_transitions(::<|$)")
             ecs = p.calls(r"(MultiPatternNfa|Nfa)::epsilon_closure$")
             ent = p.calls(r"HashMap::<.*>::entry$")
+            if not ent:
+                # `match map.get(&closure) { Some(id) => *id, None => { let id = ..len(); map.insert(closure.clone(), id); .. } }`:
+                # the lookup is the `get`; on its None side the same key must be inserted
+                gets_ = [e for e in p.calls(r"HashMap::<.*>::get(::<.*>)?$") if ecs and S.mentions(argval(e, 1), lambda x: x == ecs[-1][4])]
+                if gets_:
+                    g_ = gets_[-1]
+                    kv_ = ex.known_variant(p, g_[4])
+                    ins_ = [e for e in p.events[p.events.index(g_):] if e[0] == "call" and re.search(r"HashMap::<.*>::insert$", e[2]) and S.mentions(argval(e, 1), lambda x: x == ecs[-1][4])]
+                    if kv_ == "Some" or (kv_ == "None" and len(ins_) == 1):
+                        ent = [g_]
             oi = p.calls(r"Entry::<.*>::or_insert_with::")
             if not gm:
                 continue
